@@ -35,7 +35,7 @@ for prop, patch, expect in cases:
             rows.append((prop, patch, 'PATCH-FAILED ' + r.stdout[:100])); bad += (0 if EVIDENCE else 1)
             continue
         out = tempfile.mkdtemp(prefix='selftest.out.')
-        r = subprocess.run([V + '/bin/gobv', 'check', '-p', prop, '-repo', d, '-out', out], capture_output=True, text=True)
+        r = subprocess.run([V + '/bin/gobv', 'check', '-p', prop, '-repo', d, '-out', out], capture_output=True, text=True, env=dict(os.environ, GOBV_NO_REPLAY='1'))  # replays (overlay go test runs) are exercised separately
         shutil.rmtree(out)
         viol = [l for l in r.stdout.splitlines() if l.startswith('VIOLATION')]
         good = (r.returncode == 1 and viol) if expect == 1 else (r.returncode == 0 and not viol)
